@@ -171,6 +171,10 @@ def run_c23(out, tier, seed):
                 out.violation("Packet:C23:panic:%s" % obs[k][6:80], {"sealed": r["case"], "ctx": k})
             elif obs[k] != exp[k]:
                 out.violation("Packet:C23:sealed:%s:predicted %s observed %s" % (k, exp[k], obs[k]), {"sealed": r["case"]})
+        evals += r.get("word_decodes", 0)
+        for wp in r.get("word_panics", []):
+            out.violation("Packet:C23:panic:sealed length word (%s) = %d: %s" % (wp["region"], wp["value"], wp["panic"][6:70]),
+                          {"sealed": r["case"], "edit": wp})
         distinct.add(("sealed", vf.key(r["case"])))
     out.coverage["evaluations"] = evals
     out.coverage["distinct_nontrivial"] = len(distinct)
